@@ -221,7 +221,7 @@ func (f *Filter) normalizePath(file string) string {
 		return file
 	case hasGopathPrefix:
 		return filepath.ToSlash(file[prefixLen+4:])
-	case strings.HasPrefix(file, f.goroot):
+	case strings.HasPrefix(file, f.goroot+string(filepath.Separator)):
 		return filepath.ToSlash(file[len(f.goroot)+4:])
 	default:
 		return filepath.Base(file)
@@ -234,7 +234,7 @@ func hasGopathPrefix(file, gopath string) (hasGopathPrefix bool, prefixLen int) 
 	gopathWorkspaces := filepath.SplitList(gopath)
 	for _, gopathWorkspace := range gopathWorkspaces {
 		gopathWorkspace = filepath.Clean(gopathWorkspace)
-		if strings.HasPrefix(file, gopathWorkspace) {
+		if strings.HasPrefix(file, gopathWorkspace+string(filepath.Separator)) {
 			return true, len(gopathWorkspace)
 		}
 	}
